@@ -18,13 +18,13 @@ ASSUMPTIONS = [
     "QuickSampler's 1e-9 threshold comparisons fork and both sides are explored when feasible",
 ]
 BOUNDS = {
-    "quick": "symbolic bs/ps/loss shapes of C04 on 2-3 modes with 0-1 herald (photon number 0..1, in != out allowed), <=2 user photons (0 with a photon-carrying herald), 1-2 equal-photon inputs with distinct expected outputs in either mapping order; post-selection: none, one or two rules, a predicate; both detector modes of the quick sampler",
+    "quick": "symbolic bs/ps/loss shapes of C04 on 2-3 modes with 0-1 herald (photon number 0..1, in != out allowed), <=2 user photons (0 with a photon-carrying herald), 1-2 equal-photon inputs with distinct expected outputs in either mapping order; post-selection: none, one or two rules, a predicate on indices, a predicate using the State API; both detector modes of the quick sampler",
     "thorough": "adds 3 photons on lossless shapes and two-herald circuits",
 }
 OUTSIDE = "photon numbers and sizes above the bound; float rounding"
 STUBS = ["thewalrus.perm -> definitional permanent"]
 
-POSTSEL = ["none", "rule1", "rule2", "func"]
+POSTSEL = ["none", "rule1", "rule2", "func", "statefunc"]
 
 
 def _mk_postselect(ctx, kind, n_user):
@@ -39,6 +39,11 @@ def _mk_postselect(ctx, kind, n_user):
         ps = lw.PostSelection()
         ps.add((0, n_user - 1), 1) if n_user > 1 else ps.add(0, 1)
         return ps, (lambda s: (s[0] + s[n_user - 1] if n_user > 1 else s[0]) == 1)
+    if kind == "statefunc":
+        # a predicate written against the State API (what the Sampler hands to predicates)
+        one = lw.State([1])
+        g = lambda s: s.n_photons >= 1 and (s[0:1] == one or s[0] == 0)  # noqa: E731
+        return g, (lambda s: s[0] <= 1 and sum(s) >= 1)
     f = lambda s: s[0] <= 1 and sum(s) >= 1  # noqa: E731
     return f, (lambda s: s[0] <= 1 and sum(s) >= 1)
 
@@ -170,6 +175,9 @@ def h_quick(ctx, shape, herald, k, postsel, counting):
         pd = qs.probability_distribution
     except ZeroDivisionError:
         ctx.reached()
+        return
+    except (AttributeError, TypeError) as e:
+        ctx.fail("quick:predicate-receives-what-the-sampler-hands-to-predicates", repr(e)[:100])
         return
     except (ValueError, lw.emulator.EmulatorError) as e:
         # legitimate only when nothing can be accepted
